@@ -1276,7 +1276,11 @@ fn next_enum<T: Iterator<Item = TokenTree> + Clone>(mut source: &mut Peekable<T>
         let attributes = next_attributes_list(&mut body);
 
         let variant_name = next_ident(&mut body).expect("Unnamed variants are not supported");
-        let ty = next_type(&mut body);
+        // a unit variant at the very end of the body (no trailing comma) has no type either
+        let ty = match next_eof(&mut body) {
+            Some(_) => None,
+            None => next_type(&mut body),
+        };
         let Some(ty) = ty else {
             variants.push(Field {
                 ty: Type {
